@@ -150,8 +150,20 @@ theorem field_exact_partial (O : Oracles) (R : String → PyVal → Bool) (S : S
     ∃ y y', deser O opts ign f v = .ok y ∧ validate O f y = .ok y' :=
   exact_scalar O R S hS opts ign f v hfrag h
 
+/-- **schema_exact (partial, field level, containers).**  `field_exact_partial` extended to homogeneous
+    `Array[X]` (any size bounds) and `Tuple[X]` without `uniqueItems`, nested to any depth over the exact
+    scalars: every document value the field's schema admits is accepted by `deserialize_single_field`
+    and by the field's validation -/
+theorem field_exact_containers_partial (O : Oracles) (R : String → PyVal → Bool) (S : String → String → Bool)
+    (hS : ∀ p s, startAnchored p = true → S p s = true → O.reMatch p s = true)
+    (opts : DeserOpts) (ign : Bool) (f : FieldDecl) (v : PyVal)
+    (hfrag : exactF f = true) (h : jsV R S (dialectFix (emit false f)) v = true) :
+    ∃ y y', deser O opts ign f v = .ok y ∧ validate O f y = .ok y' := by
+  rw [dialect_fix_field] at h
+  exact c08_exact_field O R S hS opts f ign v hfrag h
+
 /-- **schema_exact (partial, class level).**  For every class of `inExactFragment` (flat, over the
-    exact scalar fragment, no defaults, not a field wrapper), every JSON object (string keys) that the
+    exact field fragment `exactF` = exact scalars and Array[X] / Tuple[X] over them; no defaults, not a field wrapper), every JSON object (string keys) that the
     class's schema admits — the schema `structure_to_schema` returns, after the dialect rewrite — and
     every flag setting of the Deserializer: `Deserializer(cls).deserialize(doc)` succeeds (each member
     passes its field, required members are present, undeclared members are allowed or absent, the
@@ -343,12 +355,13 @@ theorem fixed_multiple_of_negative :
 def exExactCls : FieldDecl :=
   flat "K" ["i", "s"] [("i", .integer { min := some ⟨0, 1⟩, max := some ⟨10, 1⟩, sign := .any }),
                        ("s", .string (some 1) (some 3) none), ("b", .boolean),
-                       ("e", .enumCls "Color" ["RED", "GREEN"])]
+                       ("e", .enumCls "Color" ["RED", "GREEN"]),
+                       ("l", .seqOf .list (.tupleOf (.integer { max := some ⟨5, 1⟩ }) false) { max := some 2 })]
 
 theorem schema_exact_class_example :
     inExactFragment exExactCls = true
-    ∧ schemaAccepts exS exExactCls 0 (.dict [(.str "i", .int 3), (.str "s", .str "xy"), (.str "e", .str "RED")]) = true
-    ∧ (match deserialize exO {} exExactCls (.dict [(.str "i", .int 3), (.str "s", .str "xy"), (.str "e", .str "RED")]) with
+    ∧ schemaAccepts exS exExactCls 0 (.dict [(.str "i", .int 3), (.str "s", .str "xy"), (.str "e", .str "RED"), (.str "l", .list [.list [.int 1, .int 5], .list []])]) = true
+    ∧ (match deserialize exO {} exExactCls (.dict [(.str "i", .int 3), (.str "s", .str "xy"), (.str "e", .str "RED"), (.str "l", .list [.list [.int 1, .int 5], .list []])]) with
        | .ok _ => true | .error _ => false) = true
     ∧ schemaAccepts exS exExactCls 0 (.dict [(.str "i", .int 11), (.str "s", .str "xy")]) = false := by decide
 
